@@ -11,6 +11,7 @@ import (
 	"runtime"
 	"strings"
 	"sync"
+	"sync/atomic"
 	"syscall"
 	"time"
 )
@@ -221,7 +222,23 @@ func (p *Pool) Close() {
 
 // Run sends the case to the worker and waits for the result. If the worker dies the Result says so (Died / Race) and
 // a fresh worker is started for the next case.
+// InfraCount counts cases that could not be executed (worker not startable, jail not creatable, watchdog without a
+// verdict); checks skip such cases, so a run in which they are frequent has shown little and must say so.
+var InfraCount atomic.Int64
+
+// LastInfra keeps one example message.
+var LastInfra atomic.Value
+
 func (p *Pool) Run(c *Case) *Result {
+	res := p.run(c)
+	if res.Infra != "" {
+		InfraCount.Add(1)
+		LastInfra.Store(res.Infra)
+	}
+	return res
+}
+
+func (p *Pool) run(c *Case) *Result {
 	if p.cmd == nil {
 		if err := p.start(); err != nil {
 			return &Result{Infra: "cannot start worker: " + err.Error()}
